@@ -18,6 +18,7 @@ import (
 	"runtime"
 	"strconv"
 	"strings"
+	"sync"
 	"time"
 
 	rt "github.com/arnodel/golua/runtime"
@@ -394,6 +395,7 @@ func pastDeadline() bool { return workerDeadline > 0 && time.Now().Unix() > work
 
 type searcher struct {
 	aborted bool              // budget spent in the middle of the case
+	disabled bool             // the case prefix is outside the restricted alphabet
 	viols  map[string]string // key -> detail (first = shortest history)
 	order  []string
 	states map[string]struct{}
@@ -436,16 +438,11 @@ func qualifiers(pre *refctx.Stack, op refctx.Op) string {
 		}
 		return "none"
 	}
-	ovf := func(r int, a uint64) bool {
-		u := top.Used[r]
-		return !u.IsUint64() || big64Overflows(u.Uint64(), a)
-	}
 	switch op.Kind {
 	case refctx.Require:
-		q += fmt.Sprintf(" limit=%s overflow=%v", lim(op.Res), ovf(op.Res, op.Amt))
+		q += fmt.Sprintf(" limit=%s", lim(op.Res))
 	case refctx.Linear:
-		q += fmt.Sprintf(" limit=%s/%s overflow=%v", lim(refctx.Cpu), lim(refctx.Mem),
-			ovf(refctx.Mem, op.Amt) || ovf(refctx.Cpu, op.Amt/op.Factor) || ovf(refctx.Cpu, op.Amt/op.Factor+1))
+		q += fmt.Sprintf(" limit=%s/%s", lim(refctx.Cpu), lim(refctx.Mem))
 	case refctx.Release:
 		q += " limit=" + lim(refctx.Mem)
 	case refctx.Pop:
@@ -490,19 +487,10 @@ func qualifiers(pre *refctx.Stack, op refctx.Op) string {
 //	live          none of the above
 func class(pre *refctx.Stack, op refctx.Op) string {
 	top := pre.Top()
-	ovf := func(r int, a uint64) bool {
-		u := top.Used[r]
-		return top.Tracked(r) && (!u.IsUint64() || big64Overflows(u.Uint64(), a))
+	if overflows(pre, op) {
+		return "uint64-wrap"
 	}
 	switch op.Kind {
-	case refctx.Require:
-		if ovf(op.Res, op.Amt) {
-			return "uint64-wrap"
-		}
-	case refctx.Linear:
-		if ovf(refctx.Mem, op.Amt) || ovf(refctx.Cpu, op.Amt/op.Factor) {
-			return "uint64-wrap"
-		}
 	case refctx.ParentSoft, refctx.ParentHard:
 		return "parent-stop"
 	}
@@ -513,6 +501,31 @@ func class(pre *refctx.Stack, op refctx.Op) string {
 		return "below-dead"
 	}
 	return "live"
+}
+
+// overflows: the exact result of the operation's additions does not fit 64 bits.
+func overflows(pre *refctx.Stack, op refctx.Op) bool {
+	top := pre.Top()
+	ovf := func(c *refctx.Ctx, r int, a uint64) bool {
+		u := c.Used[r]
+		return c.Tracked(r) && (!u.IsUint64() || big64Overflows(u.Uint64(), a))
+	}
+	switch op.Kind {
+	case refctx.Require:
+		return ovf(top, op.Res, op.Amt)
+	case refctx.Linear:
+		return ovf(top, refctx.Mem, op.Amt) || ovf(top, refctx.Cpu, op.Amt/op.Factor)
+	case refctx.Pop:
+		if len(pre.C) > 1 {
+			p := pre.C[len(pre.C)-2]
+			for r := 0; r < refctx.NRes; r++ {
+				if !top.Used[r].IsUint64() || ovf(p, r, top.Used[r].Uint64()) {
+					return true
+				}
+			}
+		}
+	}
+	return false
 }
 
 // step executes history h on a fresh runtime, then op, and compares with the
@@ -604,7 +617,8 @@ func (s *searcher) run(prefix []uint16, more int, alphabet []uint16) {
 	canon := ""
 	for _, x := range prefix {
 		if !model.Enabled(decode(x)) {
-			return // the case's prefix is outside the restricted alphabet
+			s.disabled = true // the case's prefix is outside the restricted alphabet
+			return
 		}
 		var next *refctx.Stack
 		next, canon = s.step(h, model, x)
@@ -613,6 +627,10 @@ func (s *searcher) run(prefix []uint16, more int, alphabet []uint16) {
 		}
 		model = next
 		h = append(h, x)
+		if !model.Representable() {
+			s.states[canon] = struct{}{}
+			return
+		}
 	}
 	s.states[canon] = struct{}{}
 	s.sig = core.Hash64(canon)
@@ -636,7 +654,7 @@ func (s *searcher) run(prefix []uint16, more int, alphabet []uint16) {
 					continue
 				}
 				s.states[canon] = struct{}{}
-				if d+1 < more {
+				if d+1 < more && next.Representable() {
 					nh := make([]uint16, len(n.hist)+1)
 					copy(nh, n.hist)
 					nh[len(n.hist)] = x
@@ -649,6 +667,9 @@ func (s *searcher) run(prefix []uint16, more int, alphabet []uint16) {
 }
 
 func (s *searcher) outcome() core.Outcome {
+	if s.disabled {
+		return core.Outcome{Skipped: true}
+	}
 	if s.aborted {
 		// not an evaluation: the family is reported as not exhaustive
 		o := core.Outcome{Skipped: true}
@@ -682,9 +703,34 @@ func gcd(a, b uint64) uint64 {
 	return a
 }
 
+// prefixState replays a case prefix in lock step and returns the canonical
+// state it ends in; ok is false when the prefix leaves the restricted alphabet,
+// shows a violation or ends in a state the search does not continue from.
+func prefixState(prefix []uint16) (canon string, ok bool) {
+	s := newSearcher()
+	model := refctx.NewStack()
+	var h []uint16
+	for _, x := range prefix {
+		if !model.Enabled(decode(x)) {
+			return "", false
+		}
+		next, c := s.step(h, model, x)
+		if next == nil || !next.Representable() {
+			return "", false
+		}
+		model, canon = next, c
+		h = append(h, x)
+	}
+	return canon, true
+}
+
 // stackFamily: cases = start state x prefix of `plen` operations (the first one
 // from `first`, the others from `rest`); each case searches `more` levels.
-func stackFamily(name string, first, rest []uint16, plen, more int, budget int, scr bool) *core.Family {
+// With dedupe, a case whose prefix ends in the same canonical state as the
+// prefix of an earlier case is skipped: equal canonical states have equal
+// futures (the argument every explicit-state search rests on), so its
+// histories are the earlier case's.
+func stackFamily(name string, first, rest []uint16, plen, more int, budget int, scr, dedupe bool) *core.Family {
 	size := uint64(len(startNames)) * uint64(len(first))
 	for i := 1; i < plen; i++ {
 		size *= uint64(len(rest))
@@ -704,11 +750,34 @@ func stackFamily(name string, first, rest []uint16, plen, more int, budget int, 
 		ops[0] = first[i%uint64(len(first))]
 		return st, ops
 	}
+	var once sync.Once
+	var rep []uint64
+	prepare := func() {
+		rep = make([]uint64, size)
+		seen := map[string]uint64{}
+		for i := uint64(0); i < size; i++ {
+			rep[i] = i
+			st, ops := get(i)
+			if canon, ok := prefixState(append(startHist(st), ops...)); ok {
+				if j, dup := seen[canon]; dup {
+					rep[i] = j
+				} else {
+					seen[canon] = i
+				}
+			}
+		}
+	}
 	return &core.Family{
 		Name: name, Size: size, BudgetSeconds: budget,
 		Run: func(i uint64) core.Outcome {
 			if pastDeadline() {
 				return core.Outcome{Skipped: true}
+			}
+			if dedupe {
+				once.Do(prepare)
+				if rep[i] != i {
+					return core.Outcome{Skipped: true}
+				}
 			}
 			st, ops := get(i)
 			s := newSearcher()
@@ -717,8 +786,15 @@ func stackFamily(name string, first, rest []uint16, plen, more int, budget int, 
 		},
 		Show: func(i uint64) string {
 			st, ops := get(i)
-			return fmt.Sprintf("start=%s [%s]; then %s; then every history of <= %d more operations of the reduced alphabet",
-				startNames[st], histStr(startHist(st)), histStr(ops), more)
+			d := ""
+			if dedupe {
+				once.Do(prepare)
+				if rep[i] != i {
+					d = fmt.Sprintf(" (skipped: same state after the prefix as case %d)", rep[i])
+				}
+			}
+			return fmt.Sprintf("start=%s [%s]; then %s; then every history of <= %d more operations of the reduced alphabet%s",
+				startNames[st], histStr(startHist(st)), histStr(ops), more, d)
 		},
 	}
 }
@@ -731,16 +807,16 @@ func partAFamilies(tier string) []*core.Family {
 	}
 	if tier == "thorough" {
 		return []*core.Family{
-			stackFamily("A-full1-depth3", full, red, 1, 2, 240, false),
-			stackFamily("A-red1-full2-depth2", red, full, 1, 1, 120, false),
-			stackFamily("A-reduced-depth4", red, red, 2, 2, 240, false),
-			stackFamily("A-reduced-depth5", red, red, 2, 3, 330, true),
-			stackFamily("A-reduced-depth6", red, red, 3, 3, 200, true),
+			stackFamily("A-full1-depth3", full, red, 1, 2, 240, false, true),
+			stackFamily("A-red1-full2-depth2", red, full, 1, 1, 120, false, true),
+			stackFamily("A-reduced-depth4", red, red, 2, 2, 240, false, true),
+			stackFamily("A-reduced-depth5", red, red, 2, 3, 330, true, true),
+			stackFamily("A-reduced-depth6", red, red, 3, 3, 200, true, false),
 		}
 	}
 	return []*core.Family{
-		stackFamily("A-full1-depth2", full, red, 1, 1, 60, false),
-		stackFamily("A-reduced-depth4", red, red, 2, 2, 100, false),
+		stackFamily("A-full1-depth2", full, red, 1, 1, 60, false, true),
+		stackFamily("A-reduced-depth4", red, red, 2, 2, 100, false, true),
 	}
 }
 
